@@ -180,6 +180,59 @@ fn byte_load(nd: &Node, dbs: &[String], strs: &mut Vec<Vec<u8>>) -> J {
     J::Object(out)
 }
 
+/// The node's real replication loop (replication_ops::start_replication_thread), fed one queued message at a
+/// time: what main.rs runs on a service thread.  A panic or an early end of the loop is the death of that thread.
+pub struct ReplService {
+    tx: futures::channel::mpsc::Sender<String>,
+    fut: std::pin::Pin<Box<dyn std::future::Future<Output = ()>>>,
+    pub dead: Option<String>,
+}
+
+impl ReplService {
+    pub fn new(node: &Node) -> ReplService {
+        nundb::verif::set_data_dir(Some(node.dir.clone()));
+        let (tx, rx) = futures::channel::mpsc::channel::<String>(1000);
+        let fut: std::pin::Pin<Box<dyn std::future::Future<Output = ()>>> =
+            Box::pin(nundb::replication_ops::start_replication_thread(rx, node.dbs.clone()));
+        let mut s = ReplService { tx, fut, dead: None };
+        s.poll();
+        s
+    }
+
+    fn poll(&mut self) {
+        if self.dead.is_some() {
+            return;
+        }
+        let waker = futures::task::noop_waker();
+        let mut cx = std::task::Context::from_waker(&waker);
+        let fut = &mut self.fut;
+        match std::panic::catch_unwind(std::panic::AssertUnwindSafe(|| fut.as_mut().poll(&mut cx))) {
+            Ok(std::task::Poll::Pending) => {}
+            Ok(std::task::Poll::Ready(_)) => self.dead = Some("ended".to_string()),
+            Err(e) => self.dead = Some(format!("panic: {}", crate::node::panic_msg(e))),
+        }
+    }
+
+    /// feeds the messages the node queued for replication; returns the state of the service
+    pub fn feed(&mut self, msgs: &J, dir: &str) -> J {
+        nundb::verif::set_data_dir(Some(dir.to_string()));
+        for m in msgs.as_array().unwrap_or(&vec![]) {
+            if self.dead.is_some() {
+                break;
+            }
+            if self.tx.try_send(m.as_str().unwrap_or("").to_string()).is_err() {
+                self.dead = Some("channel closed".to_string());
+                break;
+            }
+            self.poll();
+        }
+        match &self.dead {
+            None => json!({"repl": "alive"}),
+            Some(why) => json!({"repl": "dead", "why": why}),
+        }
+    }
+}
+
 lazy_static::lazy_static! {
     static ref EXTRA: std::sync::Mutex<Option<Box<dyn Fn() -> J + Send>>> = std::sync::Mutex::new(None);
 }
@@ -225,6 +278,7 @@ pub fn run_case(case: &J, workdir: &str, out: &mut dyn Write, n: usize) {
     if let Some(t) = case["transport"].as_str() {
         node.set_transport(t);
     }
+    let mut svc = if case["services"].as_bool() == Some(true) { Some(ReplService::new(&node)) } else { None };
     let empty = vec![];
     let steps = case["steps"].as_array().unwrap_or(&empty);
     // conflict notices every session received and has not answered yet (C13)
@@ -392,6 +446,12 @@ pub fn run_case(case: &J, workdir: &str, out: &mut dyn Write, n: usize) {
         }
         ev["inbox"] = J::Object(inbox);
         ev["side"] = node.side_state();
+        if let Some(sv) = svc.as_mut() {
+            if st.get("restart").is_some() {
+                *sv = ReplService::new(&node);
+            }
+            ev["services"] = sv.feed(&ev["side"]["repl"], &node.dir);
+        }
         if dump_every || st.get("dump").is_some() {
             ev["dump"] = node.dump();
         }
